@@ -1193,6 +1193,9 @@ class Processes:
 
         response = json.dumps(data)
         await self._answer(service, response)
+        # the data is the payload: the command is still acknowledged like every other one,
+        # a client waiting for done/error after 'routes add ...' waited for ever
+        await self.answer_done(service)
 
     def set_ack(self, service: str, enabled: bool) -> None:
         """Set ACK state for a specific service/process"""
